@@ -4,7 +4,7 @@ from . import _batcher
 ID = 'C04'
 MODULE = _batcher.MODULE
 LEAN_SUBDIRS = _batcher.LEAN_SUBDIRS
-THEOREMS = ['AiutiVerif.Batcher.C04_all_answered_at_rest','AiutiVerif.Batcher.C04_waiters_are_in_flight','AiutiVerif.Batcher.C04_waiters_are_in_flight_prefix','AiutiVerif.Batcher.C04_every_call_is_served','AiutiVerif.Batcher.C04_pump_is_runScript','AiutiVerif.Batcher.C04_outcome','AiutiVerif.Batcher.C04_no_cross_key','AiutiVerif.Batcher.C04_always_answers','AiutiVerif.Batcher.behaviourGo_ends']
+THEOREMS = ['AiutiVerif.Batcher.C04_all_answered_at_rest','AiutiVerif.Batcher.C04_waiters_are_in_flight','AiutiVerif.Batcher.C04_waiters_are_in_flight_prefix','AiutiVerif.Batcher.C04_every_call_is_served','AiutiVerif.Batcher.C04_pump_is_runScript','AiutiVerif.Batcher.C04_outcome','AiutiVerif.Batcher.C04_no_cross_key','AiutiVerif.Batcher.C04_always_answers','AiutiVerif.Batcher.behaviourGo_ends', 'AiutiVerif.Batcher.C04_answer_is_final']
 ASSUMPTIONS = list(_batcher.ASSUMPTIONS_COMMON)
 RULE = ('timed programs of up to 10 calls, keys from a domain of 1..4 (so keys repeat), gaps straddling batch_timeout, max_batch_size 1..5, max_concurrent_batches 1..3, retention 0 / >0; per key and occurrence the batch function yields a value, yields an Exception, omits the key, yields it twice, yields an unknown key, or raises mid-batch; result order forward / reverse / rotated; per-item and tail delays; every program runs on the real AsyncBackgroundBatcher under a virtual clock and on the Lean '
         'machine, the event streams are compared on the components this property mentions, and an independent '
